@@ -3,30 +3,40 @@
 #include "props/regp.hpp"
 using namespace rx;
 
-struct Spec { int kind; bool write, w16; uint16_t seq; uint32_t addr, n; Bytes payload; int code; uint32_t vaddr; int meta; };   // kind 0 request 1 response 2 meta
-struct Case { bool serial, mem16, chunk_src, chunk_snk; uint32_t extra; std::vector<Spec> frames; };
+struct Spec { int kind; bool write, w16; uint16_t seq; uint32_t addr, n; Bytes payload; int code; uint32_t vaddr; int meta; int optx = -1; };   // kind 0 request 1 response 2 meta; optx >= 0: checksum option bits to use instead of the transport's canonical ones
+struct Case { bool serial, mem16, chunk_src, chunk_snk; uint32_t extra; std::vector<Spec> frames; };   // extra == 0: the receive block is exactly as large as the largest frame/answer needs
 
 static std::string ser_case(const Case &c) {
     std::string s = vp::fmt("session %d %d %d %d %u\n", (int)c.serial, (int)c.mem16, (int)c.chunk_src, (int)c.chunk_snk, c.extra);
-    for (auto &f : c.frames) s += vp::fmt("frame %d %d %d %u %u %u %d %u %d %s\n", f.kind, (int)f.write, (int)f.w16, f.seq, f.addr, f.n, f.code, f.vaddr, f.meta, f.payload.empty() ? "-" : vp::hex(f.payload).c_str());
+    for (auto &f : c.frames) s += vp::fmt("frame %d %d %d %u %u %u %d %u %d %s %d\n", f.kind, (int)f.write, (int)f.w16, f.seq, f.addr, f.n, f.code, f.vaddr, f.meta, f.payload.empty() ? "-" : vp::hex(f.payload).c_str(), f.optx);
     return s;
 }
 static size_t hdr_octets(bool serial, bool with_payload) { return 12 + (serial ? 2 + (with_payload ? 2 : 0) : 0); }
 
 static std::string run_case(const Case &c, std::string &msg, bool classify) {
     // the receive block: large enough for every frame of the session (the region beyond is C09's subject)
-    size_t need = 64;
-    for (auto &f : c.frames) need = std::max(need, hdr_octets(c.serial, true) + (size_t)f.n * 2 + f.payload.size() + 8);
+    // the frames of the session, reference-encoded; the receive block is sized from what they (and the read answers) really need
+    auto build = [&](const Spec &sp) {
+        rp::Frame fr;
+        if (sp.kind == 0) { fr = rp::make_request(c.serial, sp.write, sp.w16, sp.seq, sp.addr, sp.n, sp.payload); if (sp.optx >= 0) { int ox = sp.optx; if (fr.payload.empty()) ox &= ~rp::PLCRC; fr.options = (fr.options & rp::WORD16) | ox; } }
+        else if (sp.kind == 1) { rp::Frame rq = rp::make_request(c.serial, sp.write, sp.w16, sp.seq, sp.addr, sp.n, {}); fr = rp::make_response(c.serial, rq, sp.code, sp.w16, sp.code == rp::C_ACK && !sp.write ? sp.payload : Bytes(), sp.vaddr); }
+        else fr = rp::make_meta(c.serial, sp.meta);
+        return fr;
+    };
+    size_t need = 16;
+    for (auto &f : c.frames) {
+        rp::Frame fr = build(f);
+        size_t raw = rp::encode(fr).size(), hdr = raw - fr.payload.size();
+        size_t answer = (f.kind == 0 && !f.write && f.w16 == c.mem16) ? (size_t)f.n * (c.mem16 ? 2 : 1) : 0;   // the read answer is assembled behind the received header
+        need = std::max(need, std::max(raw, hdr + answer));
+    }
     size_t block = frame_struct_size() + need + c.extra;
     Session S(c.serial, c.mem16, block, c.chunk_src, c.chunk_snk);
     be().reset(); be().salt = c.extra * 7 + 1;
     size_t mixed = 0;
     for (size_t i = 0; i < c.frames.size(); i++) {
         const Spec &sp = c.frames[i];
-        rp::Frame fr;
-        if (sp.kind == 0) fr = rp::make_request(c.serial, sp.write, sp.w16, sp.seq, sp.addr, sp.n, sp.payload);
-        else if (sp.kind == 1) { rp::Frame rq = rp::make_request(c.serial, sp.write, sp.w16, sp.seq, sp.addr, sp.n, {}); fr = rp::make_response(c.serial, rq, sp.code, sp.w16, sp.code == rp::C_ACK && !sp.write ? sp.payload : Bytes(), sp.vaddr); }
-        else fr = rp::make_meta(c.serial, sp.meta);
+        rp::Frame fr = build(sp);
         rp::Frame chk;
         if (rp::decode(rp::encode(fr), chk) != rp::V_OK) { msg = "generated frame is not valid under the reference decoder: " + rp::show(fr); return "harness:invalid-frame-generated"; }
         S.feed(rp::on_wire(c.serial, rp::encode(fr)));
@@ -88,7 +98,7 @@ static rc::Gen<Case> genCase() {
     return rc::gen::exec([]() {
         Case c;
         c.serial = *rc::gen::arbitrary<bool>(); c.mem16 = *rc::gen::arbitrary<bool>(); c.chunk_src = *rc::gen::arbitrary<bool>(); c.chunk_snk = *rc::gen::arbitrary<bool>();
-        c.extra = *vprc::uni<uint32_t>(0, 40);
+        c.extra = *rc::gen::weightedOneOf<uint32_t>({{2, rc::gen::just<uint32_t>(0)}, {1, vprc::uni<uint32_t>(0, 3)}, {2, vprc::uni<uint32_t>(0, 40)}});
         size_t nf = *vprc::uni<size_t>(1, 8);
         bool mem16 = c.mem16;
         c.frames = *rc::gen::container<std::vector<Spec>>(nf, rc::gen::exec([mem16]() {
@@ -103,6 +113,7 @@ static rc::Gen<Case> genCase() {
             s.code = *rc::gen::weightedOneOf<int>({{2, rc::gen::just(0)}, {3, vprc::uni<int>(0, 11)}});
             s.vaddr = *rc::gen::weightedOneOf<uint32_t>({{1, rc::gen::element<uint32_t>(0, 0xffffffffu, 0xdbdcddc0u)}, {1, rc::gen::arbitrary<uint32_t>()}});
             s.meta = *vprc::uni<int>(1, 2);
+            s.optx = *rc::gen::weightedElement<int>({{5, -1}, {1, 0}, {1, rp::HDCRC}, {1, rp::PLCRC}, {1, rp::HDCRC | rp::PLCRC}});
             return s;
         }));
         return c;
@@ -116,7 +127,7 @@ static std::string oracle(const Case &c) {
     return key;
 }
 static void run() {
-    vp::stats().rule = "rc: sessions of 1..8 frames on one RegP instance (serial/tcp x 8/16-bit memory x octet/chunk endpoints x receive blocks just large enough +0..40): requests of all four kinds "
+    vp::stats().rule = "rc: sessions of 1..8 frames on one RegP instance (serial/tcp x 8/16-bit memory x octet/chunk endpoints x receive blocks exactly as large as the largest frame/answer needs, +0..40 octets; requests also with non-canonical checksum option bits): requests of all four kinds "
                        "incl. word-size mismatches, block sizes 0..200, payloads rich in SLIP control octets, every back-end verdict (12 codes + address), interleaved response and meta frames; "
                        "oracle = recording back-end (calls, arguments, payload) + reference decoder on the sink octets + allocation ledger";
     vprc::check<Case>("requests are executed once and answered faithfully", genCase(), oracle, ser_case);
@@ -127,7 +138,7 @@ static bool replay(const std::string &text) {
         auto w = vp::split(l);
         if (w.size() >= 6 && w[0] == "session") { c.serial = atoi(w[1].c_str()); c.mem16 = atoi(w[2].c_str()); c.chunk_src = atoi(w[3].c_str()); c.chunk_snk = atoi(w[4].c_str()); c.extra = (uint32_t)strtoul(w[5].c_str(), 0, 10); have = true; }
         else if (w.size() >= 11 && w[0] == "frame") c.frames.push_back({atoi(w[1].c_str()), (bool)atoi(w[2].c_str()), (bool)atoi(w[3].c_str()), (uint16_t)strtoul(w[4].c_str(), 0, 10), (uint32_t)strtoul(w[5].c_str(), 0, 10),
-                                                                      (uint32_t)strtoul(w[6].c_str(), 0, 10), w[10] == "-" ? Bytes() : vp::unhex(w[10]), atoi(w[7].c_str()), (uint32_t)strtoul(w[8].c_str(), 0, 10), atoi(w[9].c_str())});
+                                                                      (uint32_t)strtoul(w[6].c_str(), 0, 10), w[10] == "-" ? Bytes() : vp::unhex(w[10]), atoi(w[7].c_str()), (uint32_t)strtoul(w[8].c_str(), 0, 10), atoi(w[9].c_str()), w.size() >= 12 ? atoi(w[11].c_str()) : -1});
     }
     if (!have) return false;
     std::string msg, key = run_case(c, msg, false);
